@@ -1504,7 +1504,15 @@ func handlerErrorStatusPolarity(c *core.Ctx, prop string) {
 			n++
 			var wrong ssa.Instruction
 			for _, s := range signals {
-				if core.Dominated(s, core.IsNilFact(isE)) && !core.Dominated(s, core.NonNilFact(isE)) {
+				// only a status that hangs directly on this test: one written further down for another reason ( the call succeeded, what it
+				// found is not there: 404 ) depends on its own condition
+				direct := false
+				for _, d := range controlDeps(s.Block()) {
+					if d == iff {
+						direct = true
+					}
+				}
+				if direct && core.Dominated(s, core.IsNilFact(isE)) && !core.Dominated(s, core.NonNilFact(isE)) {
 					wrong = s
 				}
 			}
